@@ -68,6 +68,11 @@ _OOO_NAMESPACES = {
     "xsi": "http://www.w3.org/2001/XMLSchema-instance",
 }
 _NUMBER_COLUMNS_REPEATED = "{" + _OOO_NAMESPACES["table"] + "}number-columns-repeated"
+_TABLE_ROW = "{" + _OOO_NAMESPACES["table"] + "}table-row"
+#: Elements that can group the rows of a table, for example rows to repeat on each printed page.
+_TABLE_ROW_CONTAINERS = tuple(
+    "{" + _OOO_NAMESPACES["table"] + "}" + name for name in ("table-header-rows", "table-rows", "table-row-group")
+)
 _TEXT_C = "{" + _OOO_NAMESPACES["text"] + "}c"
 _TEXT_LINE_BREAK = "{" + _OOO_NAMESPACES["text"] + "}line-break"
 _TEXT_S = "{" + _OOO_NAMESPACES["text"] + "}s"
@@ -227,6 +232,20 @@ def _findall(element, xpath, namespaces):
     return result
 
 
+def _ods_table_rows(element):
+    """
+    The ``table:table-row`` elements of table ``element`` in document order
+    including rows in ``table:table-header-rows``, ``table:table-rows`` and
+    (possibly nested) ``table:table-row-group``.
+    """
+    for child in element:
+        if child.tag == _TABLE_ROW:
+            yield child
+        elif child.tag in _TABLE_ROW_CONTAINERS:
+            for table_row in _ods_table_rows(child):
+                yield table_row
+
+
 def _ods_text(element, location):
     """
     The text in ``element`` including the text of nested elements such as
@@ -301,7 +320,7 @@ def ods_rows(source_ods_path, sheet=1):
     location = errors.Location(source_ods_path, has_cell=True, has_sheet=True)
     for _ in range(sheet - 1):
         location.advance_sheet()
-    for table_row in _findall(table_element, "table:table-row", namespaces=_OOO_NAMESPACES):
+    for table_row in _ods_table_rows(table_element):
         row = []
         for table_cell in _findall(table_row, "table:table-cell", namespaces=_OOO_NAMESPACES):
             repeated_text = table_cell.attrib.get(_NUMBER_COLUMNS_REPEATED, "1")
